@@ -26,7 +26,57 @@ def streams(rng, tier, ctx):
         for i in range(n):
             r = rng.fork()
             it.op("=== gen%d" % i)
-            if i % 4 == 3:
+            if i % 4 == 1:
+                # window tail first: the packet window is filled exactly (Reliable packets at its base, whose first
+                # copies are lost, then Unreliable / Persistent ones on another channel); the frame with the LAST id of the
+                # window arrives first, earlier ones never or - being Persistent - as resends in later frames (a frame
+                # older than the newest one seen is discarded by the frame window, so lateness only arises through resends)
+                cfg = pick_cfg(r); W = r.pick([4, 8, 16]); cfg["pw"] = W; cfg["fw"] = r.pick([64, 4096])
+                cfg["bwA"] = cfg["bwB"] = 20_000_000; cfg["allocA"] = cfg["allocB"] = 1_000_000
+                sim = Sim(r, cfg, inter=it)
+                ok = Net(latency=r.pick([0, 1_000_000]))
+                # warm-up: slow start has to open far enough for a whole window of frames to leave in one flush
+                def warm(sim, ep):
+                    if ep == "A":
+                        for _ in range(r.range(1, 3)):
+                            sim.send("A", r.below(2), r.pick([3, 1]), 1000)
+                sim.run(r.range(100, 140), 5_000_000, ok, ok, warm)
+                for _ in range(120):
+                    sim.run(1, 5_000_000, ok, ok)
+                    pa = sim.probe("A")
+                    if sim.dead or pa is None or (pa["ps"][0] == pa["ps"][1] and sim.quiescent()):     # send window empty again
+                        break
+                m = r.pick([2, 2, 3])
+                pk = []
+                for k in range(W):
+                    pk.append(sim.send("A", 1 if k < m else 0, 3 if k < m else r.pick([1, 2, 2]), r.range(1000, 1400)))
+                index = dict((p.frag_fnv[0], k) for k, p in enumerate(pk))
+                seen = set()
+                again = dict((k, r.pick([2, 3, 3])) for k in range(1, m))      # later Reliable ones: resends lost too
+                for k in range(m, W - 1):
+                    if pk[k].mode == 2:
+                        again[k] = r.pick([0, 1, 1])                        # Persistent ones come back with their first or second resend
+                def fate(sim, ep, idx, f, W=W, m=m, again=again, seen=seen, index=index):
+                    if ep != "A" or f["kind"] != "D":
+                        return None
+                    ks = [index[d["dfnv"]] for d in f["dgs"] if d["dfnv"] in index]
+                    if not ks:
+                        return None
+                    k = ks[0]
+                    if k in seen:                                   # a resend
+                        if again.get(k, 0) > 0:
+                            again[k] -= 1
+                            return []
+                        return None
+                    seen.add(k)
+                    if k < m: return []                                                        # Reliable at the base: first copy lost
+                    if k == W - 1: return [0]                                                  # the tail arrives at once
+                    return r.pick([[], [r.range(20, 150) * 1_000_000], [r.range(20, 150) * 1_000_000]])
+                sim.fate_fn = fate
+                sim.run(r.range(60, 120), 5_000_000, ok, ok)
+                sim.fate_fn = None
+                sim.meta = {"cfg": cfg}
+            elif i % 4 == 3:
                 # long lead: a Reliable packet is lost repeatedly while 100..300 small packets follow it
                 cfg = pick_cfg(r); cfg["pw"] = 4096; cfg["fw"] = 4096; cfg["bwA"] = cfg["bwB"] = 20_000_000
                 sim = Sim(r, cfg, inter=it)
@@ -34,9 +84,15 @@ def streams(rng, tier, ctx):
                 class DropFirst(Net):
                     pass
                 lost = Net(loss=1000); ok = Net(latency=r.pick([0, 2_000_000]), reorder=r.pick([0, 200]), jitter=r.pick([0, 1_000_000]))
-                sim.send("A", r.below(4), 3, 10)
+                rel = sim.send("A", r.below(4), 3, 10)
+                hold = r.range(20, 70)                                 # ticks during which every copy of the Reliable packet is lost
+                def fate(sim, ep, idx, f, rel=rel, hold=hold):
+                    if ep == "A" and f["kind"] == "D" and sim.tick <= hold + 1 and any(d["dfnv"] == rel.frag_fnv[0] and d["dlen"] == 10 for d in f["dgs"]):
+                        return []
+                    return None
+                sim.fate_fn = fate
                 sim.run(1, 5_000_000, lost, ok)                        # the Reliable packet's frame is lost
-                total = r.range(100, 300)
+                total = r.range(140, 320)
                 def tr(sim, ep):
                     if ep == "A" and len(sim.sent["A"]) < total:
                         for _ in range(r.range(1, 6)):
